@@ -263,7 +263,7 @@ class ThreadPool(object):
             max_threads = int(max_threads)
             if max_threads < 1:
                 raise ValueError("Pool size must be greater than 0")
-        except (TypeError, ValueError) as ex:
+        except (TypeError, ValueError, OverflowError) as ex:
             raise ValueError("Invalid pool size: {0}".format(ex))
 
         try:
@@ -272,6 +272,9 @@ class ThreadPool(object):
                 min_threads = 0
             elif min_threads > max_threads:
                 min_threads = max_threads
+        except OverflowError:
+            # Infinite value: clamp it like any other out-of-range value
+            min_threads = max_threads if min_threads > 0 else 0
         except (TypeError, ValueError) as ex:
             raise ValueError("Invalid pool size: {0}".format(ex))
 
@@ -285,7 +288,7 @@ class ThreadPool(object):
         # The task queue
         try:
             queue_size = int(queue_size)
-        except (TypeError, ValueError):
+        except (TypeError, ValueError, OverflowError):
             # Not a valid integer
             queue_size = 0
 
